@@ -91,9 +91,14 @@ Digits(v, n) == [i \in 1..n |-> (v \div (256 ^ (n - i))) % 256]
 \* a bit field <<v, w>> is the w-bit numeral of v < 2^w, w <= 30
 FieldBits(f) == [i \in 1..f[2] |-> (f[1] \div (2 ^ (f[2] - i))) % 2]
 
-RECURSIVE CatFrom(_, _)
-CatFrom(seqs, i) == IF i > Len(seqs) THEN <<>> ELSE seqs[i] \o CatFrom(seqs, i + 1)
-Cat(seqs) == CatFrom(seqs, 1)                \* concatenation of a sequence of sequences
+\* concatenation of a sequence of sequences (balanced: keys of hundreds of
+\* components must not exhaust TLC's stack)
+RECURSIVE CatRange(_, _, _)
+CatRange(seqs, lo, hi) == IF lo > hi THEN <<>>
+                          ELSE IF lo = hi THEN seqs[lo]
+                          ELSE LET mid == (lo + hi) \div 2
+                               IN CatRange(seqs, lo, mid) \o CatRange(seqs, mid + 1, hi)
+Cat(seqs) == CatRange(seqs, 1, Len(seqs))
 
 \* the bytes (most significant first) of the number written as the
 \* concatenation of the bit fields; total width a multiple of 8
